@@ -21,16 +21,18 @@ theorem reserve_decisions_tie : reserveDecisions =
      "optAmount+reservedAmount < amount => return nil, ErrImmature",
      "optAmount < amount => return nil, ErrReserved"] := by decide
 
-/-- findUtxos lists DB records, then (if asked) the unconfirmed map, WITHOUT de-duplication
-    (model: `listed`, `findUtxos`) -/
+/-- findUtxos lists DB records, then (if asked) the unconfirmed map; a matching output id that
+    was already listed is skipped (model: `listed`, `matching` = `distinctById` after the match
+    filter and before the maturity split) -/
 theorem findUtxos_tie : findUtxosListingOrder = ["for utxoIter.Next()", "if !useUnconfirmed return", "range uk.unconfirmed"] ∧
     findUtxosAppend =
       ["if u.AccountID != accountID || u.AssetID != *assetID || !bytes.Equal(u.Vote, vote) { return }",
+       "if _, ok := listed[u.OutputID]; ok { return }", "listed[u.OutputID] = struct{}{}",
        "if u.ValidHeight > currentHeight { immatureAmount += u.Amount } else { utxos = append(utxos, u) }"] := by decide
 
 /-- the loop conditions of optUTXOs (model: `sel`, `replDecide`) -/
 theorem optUTXOs_tie : optUTXOsConditions =
-    ["if ok", "for node != nil", "if optAmount < amount",
+    ["if ok", "for node != nil", "if optAmount < amount", "if largestNode == nil",
      "for node != nil && replaceList.Len() <= desireUtxoCount-optList.Len()",
      "if replaceAmount >= amount", "if largestNode == optList.Front()", "for e != nil"] := by decide
 
